@@ -49,7 +49,18 @@ CLAIM = dict(
          'matrix_svd, matrix_skeleton (l, r, m, rel), truncate (all four flag combinations, orth on/off) and add_many; '
          'exact rank-rule stream (Z instance vs the implementation on integer diagonal matrices incl. exact ties); threshold '
          'stream (e 1e-9 above / below every rank change); contracts of every recorded qr / eigh / svd / argsort call validated. '
-         'Theorems are about exact real arithmetic; IEEE rounding is not modelled.',
+         'Theorems are about exact real arithmetic; IEEE rounding is not modelled.'
+         ' Cross-cutting families (search, and correspondence where the model can express them): argument forms (e and r as '
+         'Python / NumPy scalars and 0-d arrays, r float / int / fractional, flags as 1/0/np.bool_, keywords and omitted '
+         'defaults, cores F-ordered / non-contiguous / int64 / int32 / float32, tensors as tuple) must give the answer of '
+         'the canonical call (forms outside the docstrings may raise, never differ); call histories (same objects rounded '
+         '2-5 times interleaved with orthogonalize / add / add_many: bit-identical results, arguments bit-identical '
+         'afterwards); exact power-of-two rescalings of one core or of the whole tensor (same ranks, rescaled result, '
+         'bound) up to 2^+-1000 with use_stab=True and 2^+-450 without; e = 0 exactly; thresholds hit exactly / 2^-40 '
+         'above / below at tensor level (d = 2, integer spectrum, all quantities exact). KEPT OUT and reported to the lead: '
+         'use_stab=False with |log2 scale| > ~500, where the squares the code forms (norm of the last core, Gram matrix, '
+         's**2) overflow / underflow - the property text says any scale; stabilisation is the documented remedy. Subnormal '
+         'inputs are not covered (reduced input precision).',
     technique='Coq proof (Pythagoras over the sweep by induction on the chain length; Frobenius algebra over any commutative '
               'ring; rank rule by list induction) + float model/implementation correspondence with replayed oracles + dense '
               'SVD reference search')
@@ -320,6 +331,34 @@ def _full(Y):
     for G in Y[1:]:
         Z = np.tensordot(Z, np.asarray(G, float), axes=([-1], [0]))
     return Z[..., 0]
+
+
+def _fnorm(T):
+    """Frobenius norm that does not overflow / underflow for entries near 2^+-1000"""
+    T = np.asarray(T, float)
+    m = float(np.abs(T).max(initial=0.0))
+    if m == 0 or not np.isfinite(m):
+        return m
+    ex = math.frexp(m)[1]
+    return math.ldexp(float(np.linalg.norm(np.ldexp(T, -ex))), ex)
+
+
+def _pow2_scaled(Y, k, where):
+    """exact power-of-two rescaling: where = core number, or 'all' (the exponent is spread over the cores)"""
+    Ys = [np.array(G, float) for G in Y]
+    d = len(Ys)
+    if where == 'all':
+        ks = [k // d] * d
+        ks[0] += k - sum(ks)
+    else:
+        ks = [0] * d
+        ks[int(where)] = k
+    return [np.ldexp(G, kk) for G, kk in zip(Ys, ks)]
+
+
+def _full_shift(Y, k):
+    """full(Y) * 2^-k computed without leaving the representable range (k spread over the cores)"""
+    return _full(_pow2_scaled(Y, -k, 'all'))
 
 
 def _ranks(Y):
@@ -676,7 +715,18 @@ def _corr_truncate(R, ctx, tn):
         e, r = _pick_e(rng), _pick_r(rng, Y)
         is_eigh, use_stab = rng.random() < 0.5, rng.random() < 0.5
         orth = rng.random() < 0.85
-        nrm = np.linalg.norm(_full(Y))
+        if rng.random() < 0.18 and fam not in ('big', 'small'):
+            # exact power-of-two rescaling of one core / of the whole tensor; without stabilisation only where the
+            # squares the code forms stay representable, with stabilisation up to 2^+-1000
+            kk = rng.choice([600, 1000, -600, -1000, 300, -300] if (use_stab and orth) else [200, 450, -200, -450])
+            where = rng.choice(['all'] + list(range(d)))
+            Y = _pow2_scaled(Y, kk, where)
+            fam = fam + '*2^%d' % kk
+            dist['pow2_scaled'] = dist.get('pow2_scaled', 0) + 1
+        if rng.random() < 0.06:
+            e = 0.0
+            dist['e_zero'] = dist.get('e_zero', 0) + 1
+        nrm = _fnorm(_full(Y))
         if not orth:
             e = e * (nrm if nrm > 0 else 1.0)
         err = 0
@@ -931,6 +981,334 @@ def _check_matrix(tn, A, e, r, which):
     return fails
 
 
+
+# ----------------------------------------------------------------------------------------------------
+# cross-cutting families: argument forms, call histories, power-of-two scales, exact thresholds
+# ----------------------------------------------------------------------------------------------------
+
+def _same_tt(Za, Zb, tol=1e-10):
+    """same ranks and the same dense tensor (relative tol on the norm); None if equal, else a message"""
+    try:
+        if len(Za) != len(Zb) or [tuple(G.shape) for G in Za] != [tuple(G.shape) for G in Zb]:
+            return 'shapes %s vs %s' % ([tuple(G.shape) for G in Za], [tuple(G.shape) for G in Zb])
+        A, B = _full([np.asarray(G, float) for G in Za]), _full([np.asarray(G, float) for G in Zb])
+    except Exception as ex:  # noqa
+        return 'malformed result: ' + repr(ex)[:100]
+    n = _fnorm(A)
+    dlt = _fnorm(A - B)
+    if not dlt <= tol * max(n, 1e-300):
+        return 'dense results differ by %.3e (norm %.3e)' % (dlt, n)
+    return None
+
+
+def _noncontig(G):
+    r1, n, r2 = G.shape
+    big = np.zeros((r1, 2 * n, r2), dtype=G.dtype)
+    big[:, ::2, :] = G
+    v = big[:, ::2, :]
+    assert not v.flags['C_CONTIGUOUS'] or n == 1
+    return v
+
+
+def _check_forms(tn, inp):
+    """every form of every argument gives the answer of the canonical call (forms outside the docstring may raise)"""
+    fails = []
+    e = float.fromhex(inp['e'])
+    r = inp['r']
+    us, ie = inp['use_stab'], inp['is_eigh']
+    what = inp['routine']
+
+    def cmp_(name, f, ref, must, same=_same_tt):
+        try:
+            with np.errstate(all='ignore'):
+                out = f()
+        except Exception as ex:  # noqa
+            if must:
+                fails.append((f'form {name}: raises', repr(ex)[:150], 'the answer of the canonical form'))
+            return
+        msg = same(ref, out)
+        if msg:
+            fails.append((f'form {name}: different answer', msg, 'the answer of the canonical form'))
+    r_int = float(r) == int(r)
+    rforms = [('r float', float(r), True), ('r np.float64', np.float64(r), True)]
+    if r_int:
+        rforms += [('r int', int(r), True), ('r np.int64', np.int64(int(r)), True), ('r 0-d array', np.array(int(r)), False)]
+        if int(r) < 2 ** 31:
+            rforms += [('r np.int32', np.int32(int(r)), False)]
+    else:
+        rforms += [('r int(r)', int(r), True)]
+    eforms = [('e np.float64', np.float64(e), True), ('e 0-d array', np.array(e), False)]
+    if float(np.float32(e)) == e:
+        eforms += [('e np.float32', np.float32(e), False)]
+    if what == 'truncate':
+        Y = _unjtt(inp['Y'])
+        cp = lambda: [G.copy() for G in Y]  # noqa
+        with np.errstate(all='ignore'):
+            ref = tn.truncate(cp(), e, r, True, us, ie)
+        for nm, rv, must in rforms:
+            cmp_(nm, lambda rv=rv: tn.truncate(cp(), e, rv, True, us, ie), ref, must)
+        for nm, ev, must in eforms:
+            cmp_(nm, lambda ev=ev: tn.truncate(cp(), ev, r, True, us, ie), ref, must)
+        cmp_('flags 1/0', lambda: tn.truncate(cp(), e, r, 1, int(us), int(ie)), ref, True)
+        cmp_('flags np.bool_', lambda: tn.truncate(cp(), e, r, np.bool_(True), np.bool_(us), np.bool_(ie)), ref, True)
+        cmp_('keywords', lambda: tn.truncate(Y=cp(), e=e, r=r, orth=True, use_stab=us, is_eigh=ie), ref, True)
+        if r >= 1e12 and not us and ie:
+            cmp_('defaults omitted', lambda: tn.truncate(cp(), e), ref, True)
+        cmp_('Y tuple', lambda: tn.truncate(tuple(cp()), e, r, True, us, ie), ref, False)
+        cmp_('cores F-ordered', lambda: tn.truncate([np.asfortranarray(G) for G in Y], e, r, True, us, ie), ref, True)
+        cmp_('cores non-contiguous', lambda: tn.truncate([_noncontig(G) for G in Y], e, r, True, us, ie), ref, True)
+        if all(np.all(G == np.round(G)) and np.abs(G).max(initial=0) < 2 ** 20 for G in Y):
+            cmp_('cores int64', lambda: tn.truncate([G.astype(np.int64) for G in Y], e, r, True, us, ie), ref, True)
+            cmp_('cores int32 / float mixed',
+                 lambda: tn.truncate([G.astype(np.int32) if k % 2 else G.copy() for k, G in enumerate(Y)], e, r, True, us, ie),
+                 ref, True)
+        if all(np.all(G.astype(np.float32).astype(float) == G) for G in Y) and e >= 1e-2:
+            # float32 cores: the computation runs in single precision; same ranks are not required, the bound is
+            def f32():
+                Z = tn.truncate([G.astype(np.float32) for G in Y], e, 1.E+12, True, us, ie)
+                T = _full(Y)
+                err, nrm = _fnorm(T - _full([np.asarray(G, float) for G in Z])), _fnorm(T)
+                if not err <= e * nrm * (1 + 1e-3) + 1e-5 * nrm:
+                    raise AssertionError('float32 cores: error %.3e > e*norm %.3e' % (err, e * nrm))
+                return ref
+            try:
+                f32()
+            except AssertionError as ex:
+                fails.append(('form cores float32: bound', str(ex), 'error <= e*norm'))
+            except Exception:  # noqa
+                pass
+    elif what == 'matrix':
+        sh, fl = inp['A']
+        A = np.array([float.fromhex(x) for x in fl], float).reshape(sh)
+        for fn, call in (('matrix_svd', lambda A_, e_, r_: tn.matrix_svd(A_, e_, r_)),
+                         ('matrix_skeleton', lambda A_, e_, r_: tn.matrix_skeleton(A_, e_, r_, give_to='l'))):
+            with np.errstate(all='ignore'):
+                U, V = call(A.copy(), e, r)
+            ref = [np.asarray(U @ V)[None, :, :].reshape(1, A.shape[0], A.shape[1]), np.zeros((A.shape[1], 1, 1))]
+            ref[1][0, 0, 0] = U.shape[1]        # carries the rank through _same_tt
+            def pack(UV, A=A):
+                U_, V_ = UV
+                o = [np.asarray(U_ @ V_, float).reshape(1, A.shape[0], A.shape[1]), np.zeros((A.shape[1], 1, 1))]
+                o[1][0, 0, 0] = U_.shape[1]
+                return o
+            same = lambda a, b: (None if (np.array_equal(a[1], b[1]) and  # noqa
+                                          _fnorm(a[0] - b[0]) <= 1e-10 * max(_fnorm(A), 1e-300)) else
+                                 'rank %d vs %d or U V differs' % (a[1][0, 0, 0], b[1][0, 0, 0]))
+            for nm, rv, must in rforms:
+                cmp_(f'{fn} {nm}', lambda rv=rv: pack(call(A.copy(), e, rv)), ref, must, same)
+            for nm, ev, must in eforms:
+                cmp_(f'{fn} {nm}', lambda ev=ev: pack(call(A.copy(), ev, r)), ref, must, same)
+            cmp_(f'{fn} A F-ordered', lambda: pack(call(np.asfortranarray(A), e, r)), ref, True, same)
+            cmp_(f'{fn} A transposed view', lambda: pack(call(A.T.copy().T, e, r)), ref, True, same)
+            if np.all(A == np.round(A)):
+                cmp_(f'{fn} A int64', lambda: pack(call(A.astype(np.int64), e, r)), ref, True, same)
+            if r >= 1e12:
+                cmp_(f'{fn} r omitted', lambda: pack(tn.matrix_svd(A.copy(), e) if fn == 'matrix_svd'
+                                                     else tn.matrix_skeleton(A.copy(), e, give_to='l')), ref, True, same)
+    elif what == 'add_many':
+        Ys = [_unjtt(Y) for Y in inp['Ys']]
+        freq = inp['freq']
+        cp = lambda: [[G.copy() for G in Y] for Y in Ys]  # noqa
+        with np.errstate(all='ignore'):
+            ref = tn.add_many(cp(), e, r, freq)
+        for nm, rv, must in rforms:
+            cmp_(f'add_many {nm}', lambda rv=rv: tn.add_many(cp(), e, rv, freq), ref, must)
+        for nm, ev, must in eforms:
+            cmp_(f'add_many {nm}', lambda ev=ev: tn.add_many(cp(), ev, r, freq), ref, must)
+        cmp_('add_many trunc_freq np.int64', lambda: tn.add_many(cp(), e, r, np.int64(freq)), ref, True)
+        cmp_('add_many tuple of tensors', lambda: tn.add_many(tuple(cp()), e, r, freq), ref, False)
+        cmp_('add_many keywords', lambda: tn.add_many(Y_many=cp(), e=e, r=r, trunc_freq=freq), ref, True)
+        if freq == 15:
+            cmp_('add_many trunc_freq omitted', lambda: tn.add_many(cp(), e, r), ref, True)
+        cmp_('add_many F-ordered cores', lambda: tn.add_many([[np.asfortranarray(G) for G in Y] for Y in Ys], e, r, freq), ref, True)
+    return fails
+
+
+def _bytes(Y):
+    return [(G.dtype.str, G.shape, G.tobytes()) for G in Y]
+
+
+def _check_history(tn, inp):
+    """the same argument objects used 2-3 times, interleaved with other routines: identical results, arguments untouched"""
+    fails = []
+    e = float.fromhex(inp['e'])
+    r, us, ie = inp['r'], inp['use_stab'], inp['is_eigh']
+    if inp['routine'] == 'truncate':
+        Y = _unjtt(inp['Y'])
+        saved = [G.copy() for G in Y]
+        snap = _bytes(Y)
+        with np.errstate(all='ignore'):
+            ref = tn.truncate([G.copy() for G in saved], e, r, True, us, ie)
+            Z1 = tn.truncate(Y, e, r, True, us, ie)
+            Z2 = tn.truncate(Y, e, r, True, us, ie)
+            tn.orthogonalize(Y, 0)
+            tn.add(Y, Y)
+            Z3 = tn.truncate(Y, e, r, True, us, ie)
+            Z4 = tn.truncate(Z1, e, r, True, us, ie)      # rounding a rounded tensor again, then the original once more
+            Z5 = tn.truncate(Y, e, r, True, us, ie)
+        if _bytes(Y) != snap:
+            fails.append(('history: argument modified', 'cores of Y changed', 'bit-identical arguments'))
+        for nm, Z in (('first call', Z1), ('second call', Z2), ('after orthogonalize/add', Z3), ('after rounding the result', Z5)):
+            if _bytes([np.asarray(G) for G in Z]) != _bytes([np.asarray(G) for G in ref]):
+                fails.append((f'history: {nm} differs from the call on a fresh copy', _same_tt(ref, Z), 'bit-identical result'))
+        if any(q > q1 for q, q1 in zip(_ranks(Z4), _ranks(Z1))):
+            fails.append(('history: second rounding raises a rank', _ranks(Z4), _ranks(Z1)))
+    elif inp['routine'] == 'add_many':
+        Ys = [_unjtt(Y) for Y in inp['Ys']]
+        freq = inp['freq']
+        snap = [_bytes(Y) for Y in Ys]
+        n0 = len(Ys)
+        with np.errstate(all='ignore'):
+            ref = tn.add_many([[G.copy() for G in Y] for Y in Ys], e, r, freq)
+            Z1 = tn.add_many(Ys, e, r, freq)
+            tn.truncate(Ys[0], e)
+            Z2 = tn.add_many(Ys, e, r, freq)
+        if [_bytes(Y) for Y in Ys] != snap or len(Ys) != n0:
+            fails.append(('history: add_many modified its list', 'operands changed', 'bit-identical arguments'))
+        for nm, Z in (('first call', Z1), ('second call', Z2)):
+            if _bytes([np.asarray(G) for G in Z]) != _bytes([np.asarray(G) for G in ref]):
+                fails.append((f'history: add_many {nm} differs', _same_tt(ref, Z), 'bit-identical result'))
+    elif inp['routine'] == 'matrix':
+        sh, fl = inp['A']
+        A = np.array([float.fromhex(x) for x in fl], float).reshape(sh)
+        snap = A.tobytes()
+        with np.errstate(all='ignore'):
+            outs = [tn.matrix_svd(A, e, r), tn.matrix_skeleton(A, e, r, give_to='l'), tn.matrix_svd(A, e, r),
+                    tn.matrix_skeleton(A, e, r, give_to='l')]
+        if A.tobytes() != snap:
+            fails.append(('history: matrix argument modified', 'A changed', 'bit-identical argument'))
+        for a, b in ((0, 2), (1, 3)):
+            if not (np.array_equal(outs[a][0], outs[b][0]) and np.array_equal(outs[a][1], outs[b][1])):
+                fails.append(('history: repeated matrix factorisation differs', 'U / V changed', 'bit-identical result'))
+    return fails
+
+
+def _check_scale(tn, inp):
+    """exact power-of-two rescaling of one core / of the whole tensor: same ranks, result rescaled by the same factor,
+    and the error bound relative to the (rescaled) norm"""
+    fails = []
+    Y = _unjtt(inp['Y'])
+    e = float.fromhex(inp['e'])
+    r, us, ie, k, where = inp['r'], inp['use_stab'], inp['is_eigh'], inp['k'], inp['where']
+    Ys = _pow2_scaled(Y, k, where)
+    try:
+        with np.errstate(all='ignore'):
+            Zb = tn.truncate([G.copy() for G in Y], e, r, True, us, ie)
+            Zs = tn.truncate([G.copy() for G in Ys], e, r, True, us, ie)
+    except Exception as ex:  # noqa
+        return [('scale 2^%d: raises' % k, repr(ex)[:150], 'a tensor')]
+    if not all(np.all(np.isfinite(G)) for G in Zs):
+        return [('scale 2^%d: non-finite core' % k, 'nan / inf', 'finite')]
+    if _ranks(Zs) != _ranks(Zb):
+        fails.append(('scale 2^%d: ranks change' % k, _ranks(Zs), _ranks(Zb)))
+    T = _full(Y)
+    nrm = _fnorm(T)
+    Ts = _full_shift(Zs, k)
+    err = _fnorm(T - Ts)
+    if _ranks(Zs) == _ranks(Zb) and not _fnorm(_full(Zb) - Ts) <= 1e-9 * max(nrm, 1e-300):
+        fails.append(('scale 2^%d: result is not the rescaled result' % k, _fnorm(_full(Zb) - Ts), 1e-9 * nrm))
+    with np.errstate(all='ignore'):
+        Z0 = Zs if r >= 1e11 else tn.truncate([G.copy() for G in Ys], e, 1.E+12, True, us, ie)
+    if _ranks(Z0) == _ranks(Zs):
+        bound = math.sqrt((e * nrm) ** 2 * (1 + 1e-6) + 1e-24 * nrm * nrm)
+        if not err <= bound and not (ie and err - e * nrm <= 1e-6 * nrm):
+            fails.append(('scale 2^%d: error <= e*norm' % k, err, bound))
+    return fails
+
+
+def _check_tie(tn, inp):
+    """d = 2, first core the identity, second core diag(s) with integer s and sum s^2 a power of four: every quantity the
+    code forms is exact, so the rank at e exactly on / just above / just below a threshold is known from integer arithmetic"""
+    from fractions import Fraction as Fr
+    fails = []
+    s = [int(v) for v in inp['s']]
+    e = float.fromhex(inp['e'])
+    us, ie, r = inp['use_stab'], inp['is_eigh'], inp['r']
+    n = len(s)
+    Y = [np.eye(n).reshape(1, n, n), np.diag(np.array(s, float)).reshape(n, n, 1)]
+    nrm2 = sum(v * v for v in s)
+    nrm = math.isqrt(nrm2)
+    assert nrm * nrm == nrm2
+    e_eff = e * nrm                      # exact: nrm is a power of two
+    xs = sorted((v * v for v in s), reverse=True)
+    e2 = Fr(e_eff) ** 2
+    dl = 0
+    acc = 0
+    for j, v in enumerate(reversed(xs)):
+        acc += v
+        if acc <= e2:
+            dl = j + 1
+    want = max(1, min(int(r), n - dl))
+    try:
+        with np.errstate(all='ignore'):
+            Z = tn.truncate(Y, e, r, True, us, ie)
+    except Exception as ex:  # noqa
+        return [('exact threshold: raises', repr(ex)[:150], 'a tensor')]
+    if _ranks(Z) != [1, want, 1]:
+        fails.append(('exact threshold: rank', _ranks(Z), [1, want, 1]))
+    else:
+        err2 = float(np.sum((_full(Y) - _full(Z)) ** 2))
+        if not abs(err2 - sum(xs[want:])) <= 1e-9 * nrm2:
+            fails.append(('exact threshold: error^2 = discarded energy', err2, sum(xs[want:])))
+    return fails
+
+
+def _crosscut_inputs(rng, nprng, deep):
+    """payloads of the four cross-cutting families"""
+    out = []
+    dy = [0.5, 0.25, 0.125, 0.0625, 2.0 ** -7, 2.0 ** -10]          # exactly representable in float32 as well
+    reps = 10 if deep else 3
+    for _ in range(reps):
+        for fam in ('int', 'decay', 'generic'):
+            Y, _f = _rand_tt(rng, nprng, d=rng.choice([2, 3, 4]), family=fam)
+            us, ie = rng.random() < 0.5, rng.random() < 0.5
+            r = rng.choice([1.E+12, 1.E+12, 2, 3, 2.7, max(_ranks(Y))])
+            e = rng.choice(dy)
+            base = dict(Y=_jtt(Y), e=float(e).hex(), r=r, use_stab=us, is_eigh=ie)
+            out.append(dict(kind='forms', routine='truncate', **base))
+            out.append(dict(kind='history', routine='truncate', **base))
+        A = nprng.integers(-4, 5, size=(rng.randint(1, 5), rng.randint(1, 5))).astype(float)
+        if rng.random() < 0.5:
+            A = A * nprng.random(A.shape)
+        mb = dict(A=_jm(A), e=float(rng.choice(dy) * max(_fnorm(A), 1.0)).hex(), r=rng.choice([1.E+12, 1, 2, 3]),
+                  use_stab=False, is_eigh=True)
+        out.append(dict(kind='forms', routine='matrix', **mb))
+        out.append(dict(kind='history', routine='matrix', **mb))
+        d = rng.randint(2, 3)
+        n = [rng.randint(1, 3) for _ in range(d)]
+        Ys = []
+        for _j in range(rng.randint(1, 5)):
+            r_ = [1] + [rng.randint(1, 2) for _ in range(d - 1)] + [1]
+            Ys.append([nprng.normal(size=(r_[k], n[k], r_[k + 1])) for k in range(d)])
+        ab = dict(Ys=[_jtt(Y) for Y in Ys], e=float(rng.choice(dy)).hex(), r=rng.choice([1.E+12, 2, 3]),
+                  freq=rng.choice([1, 2, 15]), use_stab=False, is_eigh=True)
+        out.append(dict(kind='forms', routine='add_many', **ab))
+        out.append(dict(kind='history', routine='add_many', **ab))
+    # scales: without stabilisation only where the squares the code forms stay representable (see CLAIM)
+    for _ in range(24 if deep else 8):
+        Y, _f = _rand_tt(rng, nprng, d=rng.choice([2, 3, 4]), family=rng.choice(['decay', 'generic', 'cluster', 'n1']))
+        us = rng.random() < 0.6
+        k = rng.choice([1000, -1000, 700, -700, 520, -600] if us else [450, -450, 300, -300, 100, -100])
+        out.append(dict(kind='scale', Y=_jtt(Y), e=float(rng.choice([0.3, 0.05, 1e-2, 1e-3, 1e-5])).hex(),
+                        r=rng.choice([1.E+12, 1.E+12, 2]), use_stab=us, is_eigh=rng.random() < 0.5, k=k,
+                        where=rng.choice(['all', 0, len(Y) - 1, rng.randrange(len(Y))])))
+    # thresholds hit exactly / one step above / below, at tensor level
+    for s_, hits in (([1, 1, 1, 1], [1, 2, 3]), ([7, 3, 2, 1, 1], [1, 2, 6, 15]), ([2, 0], [0]), ([5, 5, 3, 2, 1], [1, 5, 14, 39]),
+                     ([1, 1, 1, 1, 2, 2, 2], [1, 2, 3, 4])):
+        nrm = math.isqrt(sum(v * v for v in s_))
+        for t in hits:
+            rt = math.isqrt(t)
+            if rt * rt != t:
+                continue
+            for side in (0.0, 2.0 ** -40, -(2.0 ** -40)):
+                e = (rt / nrm) * (1 + side)
+                for us in (False, True):
+                    for ie in (True, False):
+                        out.append(dict(kind='tie', s=s_, e=float(e).hex(), r=rng.choice([1.E+12, 1.E+12, len(s_) - 1]),
+                                        use_stab=us, is_eigh=ie))
+    return out
+
+
 def _fail(what, kind, **inp):
     f = dict(what=f'C02 {kind}: {what[0]}', input=dict(kind=kind, **inp), got=what[1], expected=what[2])
     if len(what) > 3 and what[3]:
@@ -956,6 +1334,14 @@ def _run_payload(tn, inp):
         sh, fl = inp['A']
         A = np.array([float.fromhex(x) for x in fl], float).reshape(sh)
         return _check_matrix(tn, A, float.fromhex(inp['e']), inp['r'], inp['which'])
+    if kind == 'forms':
+        return _check_forms(tn, inp)
+    if kind == 'history':
+        return _check_history(tn, inp)
+    if kind == 'scale':
+        return _check_scale(tn, inp)
+    if kind == 'tie':
+        return _check_tie(tn, inp)
     return []
 
 
@@ -988,6 +1374,13 @@ def search(R, ctx, deep, hints):
             run(dict(kind='add_many', Ys=inp['Ys'], e=inp['e'], r=inp['r'], freq=inp['freq']))
         elif isinstance(inp, dict) and 'A' in inp and inp.get('which') in ('svd', 'l', 'r', 'm') and not inp.get('rel'):
             run(dict(kind='matrix', A=inp['A'], e=inp['e'], r=inp['r'], which=inp['which']))
+    # cross-cutting families: argument forms, call histories, power-of-two scales, exact thresholds
+    n_cc = 0
+    for inp in _crosscut_inputs(rng, nprng, deep):
+        if len(fails) >= 8:
+            break
+        run(inp)
+        n_cc += 1
     # degenerate families first, all four flag combinations
     fams = ['zero', 'rank1', 'n1', 'overranked', 'deficient', 'cluster', 'big', 'small', 'int', 'decay', 'generic']
     reps = 6 if deep else 2
@@ -1047,7 +1440,7 @@ def search(R, ctx, deep, hints):
         any(c.get('mismatches') for c in R.corr)
     R.search.append(dict(name='truncate / matrix factorisations / add_many on the implementation vs dense SVD reference '
                               '(shape, caps, error <= e*norm when the cap does not bind, Eckart-Young clauses, per-step bound)',
-                         evaluations=nev, truncate_calls_checked=n_tr, failures=len(fails),
+                         evaluations=nev, truncate_calls_checked=n_tr, crosscut_cases=n_cc, failures=len(fails),
                          known_finding_hits=len(known), deep=deep))
     if fails:
         return fails + known[:3]
